@@ -8,6 +8,7 @@ once (a subscription is a set of topics).  No bound on the number of members, to
 ids are arbitrary integers and may even repeat (cover is stated on multisets).
 -/
 import KafkaVerif.Lemmas.GroupBalancer
+import KafkaVerif.Lemmas.RackAffinity
 
 namespace KV.C14
 open KV.GroupBalancer KV.Spec.GroupAssign
@@ -160,5 +161,130 @@ theorem rr_holds (ms : List Member) (ps : List Part) (h : WellFormed ms) (ts ids
     rrHoldsOn ms ps (rrAssign ms ps) ts ids = true := by
   simp only [rrHoldsOn, Bool.and_eq_true, rr_coverBalance ms ps h, List.all_eq_true, decide_eq_true_eq, true_and]
   exact fun t _ => rr_stride ms ps h t
+
+
+/-! ## 4. RackAffinity — for every iteration order of the Go maps -/
+
+/-- `σ` is an iteration order of the Go map `zonedPartitions` of topic `t`: every rack that leads a partition of
+`t` occurs, no rack occurs twice (racks without partitions of `t` may occur: visiting them is a no-op) -/
+def IterOrder (ps : List Part) (t : Nat) (σ : List Nat) : Prop :=
+  σ.Nodup ∧ ∀ p ∈ partsOfTopic t ps, p.zone ∈ σ
+
+/-- the assignment RackAffinity returns under the iteration orders `σ₁ t`, `σ₂ t` (a panic would show as `[]`
+here; `rack_total` shows there is none) -/
+def rackAsg (ms : List Member) (ps : List Part) (σ₁ σ₂ : Nat → List Nat) : Asg :=
+  fun t id => (rackAssign ms ps σ₁ σ₂ t id).getD []
+
+/-- what the model computes for a topic with at least one subscriber -/
+theorem rack_topic (ms : List Member) (ps : List Part) (σ₁ σ₂ : Nat → List Nat) (h : WellFormed ms) (t : Nat)
+    (h1 : IterOrder ps t (σ₁ t)) (h2 : IterOrder ps t (σ₂ t)) (hs : subscribers ms t ≠ []) :
+    ∃ es, rackAssignTopic (subscribers ms t) (partsOfTopic t ps) (σ₁ t) (σ₂ t) = some es ∧
+      (∀ id, rackAssign ms ps σ₁ σ₂ t id = some (collect id es)) ∧
+      ((subscribers ms t).flatMap (fun m => collect m.id es)).Perm (partsOf t ps) ∧
+      (∀ m ∈ subscribers ms t, (partsOf t ps).length / (subscribers ms t).length ≤ (collect m.id es).length ∧
+        (collect m.id es).length ≤ (partsOf t ps).length / (subscribers ms t).length + 1) ∧
+      (∀ id, (∀ m ∈ subscribers ms t, m.id ≠ id) → collect id es = []) := by
+  obtain ⟨hd, ho⟩ := wf_split h
+  obtain ⟨es, he, hperm, hload, hother⟩ := rackTopic_spec (subscribers ms t) (partsOfTopic t ps) (σ₁ t) (σ₂ t) hs
+    (subscribers_distinct ms t hd) h1.1 h2.1 h2.2
+  refine ⟨es, he, ?_, hperm, ?_, hother⟩
+  · intro id
+    unfold rackAssign
+    rw [appendByTopic_eq_subscribers t ms ho]
+    have : (subscribers ms t).length ≠ 0 := fun e => hs (List.length_eq_zero_iff.mp e)
+    simp [this, he]
+  · have : (partsOf t ps).length = (partsOfTopic t ps).length := by unfold partsOf partsOfTopic; simp
+    rw [this]; exact hload
+
+theorem rack_none (ms : List Member) (ps : List Part) (σ₁ σ₂ : Nat → List Nat) (h : WellFormed ms) (t : Nat)
+    (hs : subscribers ms t = []) (id : Nat) : rackAssign ms ps σ₁ σ₂ t id = some [] := by
+  unfold rackAssign
+  rw [appendByTopic_eq_subscribers t ms h.2, hs]; rfl
+
+/-- no slice or index expression of `assignTopic` is ever out of range, whatever the map iteration orders -/
+theorem rack_total (ms : List Member) (ps : List Part) (σ₁ σ₂ : Nat → List Nat) (h : WellFormed ms) (t : Nat)
+    (h1 : IterOrder ps t (σ₁ t)) (h2 : IterOrder ps t (σ₂ t)) (id : Nat) :
+    (rackAssign ms ps σ₁ σ₂ t id).isSome := by
+  by_cases hs : subscribers ms t = []
+  · rw [rack_none ms ps σ₁ σ₂ h t hs]; rfl
+  · obtain ⟨es, _, hr, _⟩ := rack_topic ms ps σ₁ σ₂ h t h1 h2 hs
+    rw [hr id]; rfl
+
+theorem rack_cover (ms : List Member) (ps : List Part) (σ₁ σ₂ : Nat → List Nat) (h : WellFormed ms) (t : Nat)
+    (h1 : IterOrder ps t (σ₁ t)) (h2 : IterOrder ps t (σ₂ t)) (hs : subscribers ms t ≠ []) :
+    CoverAt ms ps (rackAsg ms ps σ₁ σ₂) t := by
+  obtain ⟨es, _, hr, hperm, _⟩ := rack_topic ms ps σ₁ σ₂ h t h1 h2 hs
+  unfold CoverAt rackAsg
+  simp only [hr, Option.getD_some]
+  exact hperm
+
+theorem rack_only_subscribers (ms : List Member) (ps : List Part) (σ₁ σ₂ : Nat → List Nat) (h : WellFormed ms) (t : Nat)
+    (h1 : IterOrder ps t (σ₁ t)) (h2 : IterOrder ps t (σ₂ t)) (id : Nat) :
+    OnlySubscribersAt ms (rackAsg ms ps σ₁ σ₂) t id := by
+  intro hid
+  unfold rackAsg
+  by_cases hs : subscribers ms t = []
+  · rw [rack_none ms ps σ₁ σ₂ h t hs]; rfl
+  · obtain ⟨es, _, hr, _, _, hother⟩ := rack_topic ms ps σ₁ σ₂ h t h1 h2 hs
+    rw [hr id]; exact hother id hid
+
+theorem rack_balanced (ms : List Member) (ps : List Part) (σ₁ σ₂ : Nat → List Nat) (h : WellFormed ms) (t : Nat)
+    (h1 : IterOrder ps t (σ₁ t)) (h2 : IterOrder ps t (σ₂ t)) :
+    BalancedAt ms (rackAsg ms ps σ₁ σ₂) t := by
+  intro m₁ hm₁ m₂ hm₂
+  have hs : subscribers ms t ≠ [] := List.ne_nil_of_mem hm₁
+  obtain ⟨es, _, hr, _, hload, _⟩ := rack_topic ms ps σ₁ σ₂ h t h1 h2 hs
+  unfold rackAsg
+  simp only [hr, Option.getD_some]
+  have := hload m₁ hm₁
+  have := hload m₂ hm₂
+  omega
+
+/-- for every rack `z`: at least min(partitions led in `z`, members in `z` × ⌊P/M⌋) partitions led in `z` are placed
+on members of `z`, whatever the map iteration orders -/
+theorem rack_affinity_bound (ms : List Member) (ps : List Part) (σ₁ σ₂ : Nat → List Nat) (h : WellFormed ms) (t : Nat)
+    (h1 : IterOrder ps t (σ₁ t)) (h2 : IterOrder ps t (σ₂ t)) (z : Nat) :
+    RackBoundAt ms ps (rackAsg ms ps σ₁ σ₂) t z := by
+  obtain ⟨hd, ho⟩ := wf_split h
+  unfold RackBoundAt
+  by_cases hs : subscribers ms t = []
+  · unfold inRack; rw [hs]; simp
+  · obtain ⟨es, he, hr, _⟩ := rack_topic ms ps σ₁ σ₂ h t h1 h2 hs
+    have haff := rackTopic_affinity (subscribers ms t) (partsOfTopic t ps) (σ₁ t) (σ₂ t)
+      (subscribers_distinct ms t hd) h1.2 es he z
+    have e1 : (inRack ms t z).length = (zoneConsumers (subscribers ms t) z).length := by
+      unfold inRack zoneConsumers; simp
+    have e2 : (partsOf t ps).length = (partsOfTopic t ps).length := by unfold partsOf partsOfTopic; simp
+    have e3 : placedInRack ms ps (rackAsg ms ps σ₁ σ₂) t z = placedIn (subscribers ms t) (partsOfTopic t ps) z es := by
+      unfold placedInRack placedIn inRack rackAsg
+      simp only [hr, Option.getD_some, ledIn_eq]
+    rw [e1, e2, e3, ledIn_eq]
+    exact haff
+
+theorem rack_holds (ms : List Member) (ps : List Part) (σ₁ σ₂ : Nat → List Nat) (h : WellFormed ms)
+    (h1 : ∀ t, IterOrder ps t (σ₁ t)) (h2 : ∀ t, IterOrder ps t (σ₂ t)) (ts ids zs : List Nat) :
+    rackHoldsOn ms ps (rackAsg ms ps σ₁ σ₂) ts ids zs = true := by
+  simp only [rackHoldsOn, coverBalanceOn, List.all_eq_true, Bool.and_eq_true, decide_eq_true_eq]
+  exact ⟨fun t _ => ⟨⟨rack_cover ms ps σ₁ σ₂ h t (h1 t) (h2 t), rack_balanced ms ps σ₁ σ₂ h t (h1 t) (h2 t)⟩,
+      fun id _ => rack_only_subscribers ms ps σ₁ σ₂ h t (h1 t) (h2 t) id⟩,
+    fun t _ z _ => rack_affinity_bound ms ps σ₁ σ₂ h t (h1 t) (h2 t) z⟩
+
+
+/-! Non-vacuity: orders that meet `IterOrder` for the example group; the result depends on the order, the
+theorems above hold for both. -/
+
+def rkMembers : List Member := [⟨1, [0], 0⟩, ⟨2, [0], 1⟩, ⟨3, [0], 2⟩]
+def rkParts : List Part := [⟨0, 0, 0⟩, ⟨0, 1, 0⟩, ⟨0, 2, 0⟩, ⟨0, 3, 1⟩, ⟨0, 4, 1⟩, ⟨0, 5, 1⟩, ⟨0, 6, 2⟩]
+
+example : WellFormed rkMembers := by decide
+example : ∀ t, IterOrder rkParts t [0, 1, 2] ∧ IterOrder rkParts t [1, 2, 0] := by
+  intro t
+  have hz : ∀ p ∈ rkParts, p.zone ∈ [0, 1, 2] ∧ p.zone ∈ [1, 2, 0] := by decide
+  exact ⟨⟨by decide, fun p hp => (hz p (List.mem_filter.mp hp).1).1⟩,
+         ⟨by decide, fun p hp => (hz p (List.mem_filter.mp hp).1).2⟩⟩
+example : [1, 2, 3].map (rackAssign rkMembers rkParts (fun _ => [0, 1, 2]) (fun _ => [0, 1, 2]) 0) =
+    [some [0, 1, 2], some [3, 4], some [6, 5]] := by decide
+example : [1, 2, 3].map (rackAssign rkMembers rkParts (fun _ => [1, 2, 0]) (fun _ => [1, 2, 0]) 0) =
+    [some [0, 1], some [3, 4, 5], some [6, 2]] := by decide
 
 end KV.C14
